@@ -121,7 +121,7 @@ def _around(pos):
     doc, tok = C.doc, C.tok
     if not (0 <= pos <= C.size):
         return rt.SKIP
-    if splits_surrogate(tok, pos):
+    if C.is_split(pos):
         return rt.SKIP
     r = doc.resolve(pos)
     par = r.parent
@@ -241,7 +241,7 @@ def _between(a, b):
     with rt.untraced():      # the visited nodes are the document's own (concrete) nodes
         subs = [(sub(n), sub(par) if par is not doc else "doc") for (n, _p, par, _i) in raw]
     got = dict(nodes=[(sn, p, sp, i) for (sn, sp), (_n, p, _par, i) in zip(subs, raw)])
-    surr = splits_surrogate(tok, a) or splits_surrogate(tok, b)
+    surr = C.is_split(a) or C.is_split(b)
     if not surr:
         got["text"] = u16(doc.text_between(a, b))
         got["text_sep"] = [u for u in u16(doc.text_between(a, b, "|", "*")) if u not in (124, 42)]
